@@ -156,9 +156,34 @@ class C02(Prop):
             orders = orders[:6]
         return {"f": shape, "comb": comb, "tokens": toks, "orders": orders, "mode": mode}
 
+    def _scatter_case(self, rng):
+        """wide scatters (indices >= 10, so that 0.1 / 0.10 / 0.11 coexist) on 2..3 dot-product ports, delivered
+        port by port (one port completely before the next), reversed, and interleaved"""
+        ports = ["a", "b", "c"][:rng.choice([2, 2, 3])]
+        w = rng.randrange(11, 14)
+        pre = rng.choice(["0", "0", "0.1", "0.10"])
+        toks, per = [], []
+        for p in ports:
+            idx = []
+            for i in range(w):
+                idx.append(len(toks))
+                toks.append([p, len(toks), f"{pre}.{i}"])
+            per.append(idx)
+        seq = [i for idx in per for i in idx]
+        rev = [i for idx in reversed(per) for i in idx]
+        back = [i for idx in per[::-1] for i in idx[::-1]]
+        inter = [i for group in zip(*per) for i in group]
+        sh = seq[:]
+        rng.shuffle(sh)
+        return {"f": "dot", "comb": {"kind": "dot", "depth": 0, "items": ports}, "tokens": toks,
+                "orders": [seq, rev, back, inter, sh], "mode": "step" if rng.random() < 0.2 else "combine"}
+
     def gen(self, rng, tier):
         n = {"quick": 260, "thorough": 2500, "extended": 1500}[tier]
-        return [self._case(rng, tier) for _ in range(n)]
+        out = []
+        for i in range(n):
+            out.append(self._scatter_case(rng) if i % 20 == 7 else self._case(rng, tier))
+        return out
 
     # ---------------------------------------------------------------- implementation
     def impl_init(self):
